@@ -1,0 +1,500 @@
+//! Verification hooks (cargo feature `verif-hooks`): a deterministic,
+//! cooperative replay scheduler for the workers of `WalkParallel`.
+//!
+//! With no scheduler installed every hook is a single relaxed load. With a
+//! scheduler installed exactly one worker runs between two hooked points; at
+//! every point the scheduler consumes one choice of a *choice prefix* (choice
+//! 0 afterwards) to decide which worker runs next. Enabled workers are listed
+//! in canonical order: the worker that just arrived at the point first (if it
+//! is still enabled), then all other enabled workers by ascending index, so
+//! choice 0 means "no context switch".
+//!
+//! An idle worker (one whose receive failed and that would sleep) is modelled
+//! as blocked until some push or successful steal has *completed* since the
+//! beginning of its last failed receive. "No enabled worker, not all exited"
+//! is a deadlock; on deadlock, horizon overrun or replay divergence all
+//! parked workers panic out of their hook so that the walk unwinds.
+#![allow(missing_docs)]
+
+use std::{
+    cell::Cell,
+    sync::{
+        atomic::{AtomicBool, Ordering},
+        Condvar, Mutex, MutexGuard,
+    },
+};
+
+/// A hooked synchronisation point of the parallel walker.
+#[derive(Clone, Copy, Debug, Eq, PartialEq, Hash)]
+pub enum Point {
+    /// A worker thread has started (first decision once all registered).
+    Start,
+    /// About to push a message on to the worker's own deque.
+    Push,
+    /// About to pop from the own deque (and then possibly steal).
+    Pop,
+    /// About to attempt one steal from one victim.
+    Steal,
+    /// About to decrement the active worker counter.
+    Deactivate,
+    /// About to increment the active worker counter.
+    Activate,
+    /// About to read the quit flag.
+    IsQuitNow,
+    /// About to set the quit flag.
+    QuitNow,
+    /// A receive failed while idle; the worker would now sleep.
+    Idle,
+    /// The worker's loop ended.
+    Exit,
+}
+
+impl Point {
+    pub fn code(&self) -> &'static str {
+        match *self {
+            Point::Start => "St",
+            Point::Push => "Pu",
+            Point::Pop => "Po",
+            Point::Steal => "Sl",
+            Point::Deactivate => "De",
+            Point::Activate => "Ac",
+            Point::IsQuitNow => "Iq",
+            Point::QuitNow => "Qn",
+            Point::Idle => "Id",
+            Point::Exit => "Ex",
+        }
+    }
+}
+
+/// One scheduling decision.
+#[derive(Clone, Debug)]
+pub struct Step {
+    /// The worker that arrived at the point (`usize::MAX` for the initial
+    /// decision taken once every worker has registered).
+    pub worker: usize,
+    pub point: Point,
+    /// Enabled workers in canonical order.
+    pub enabled: Vec<usize>,
+    /// Index into `enabled` that was taken.
+    pub choice: usize,
+    /// Whether `worker` itself was enabled (then it is `enabled[0]` and any
+    /// other choice is a preemption).
+    pub self_enabled: bool,
+    /// For `Point::Steal`: whether the attempt was answered with an injected
+    /// `Steal::Retry`.
+    pub retry: bool,
+}
+
+#[derive(Clone, Debug)]
+pub enum Event {
+    Step(Step),
+    /// A note appended by the harness (e.g. from its visitor).
+    Note { worker: Option<usize>, text: String },
+}
+
+#[derive(Clone, Copy, Debug, Eq, PartialEq)]
+pub enum Abort {
+    Deadlock,
+    Horizon,
+    Diverged,
+}
+
+/// What to replay.
+#[derive(Clone, Debug, Default)]
+pub struct Config {
+    /// Choices for the first decisions; afterwards choice 0.
+    pub prefix: Vec<usize>,
+    /// Ordinals (0-based, global) of steal attempts answered with `Retry`.
+    pub retry_at: Vec<usize>,
+    /// Maximum number of decisions before the run is aborted.
+    pub horizon: usize,
+}
+
+/// The result of one scheduled walk.
+#[derive(Clone, Debug, Default)]
+pub struct Trace {
+    pub workers: usize,
+    pub events: Vec<Event>,
+    pub abort: Option<Abort>,
+    /// Whether the walk reached its end (`Done`).
+    pub done: bool,
+    pub steal_attempts: usize,
+}
+
+impl Trace {
+    pub fn steps(&self) -> impl Iterator<Item = &Step> {
+        self.events.iter().filter_map(|e| match e {
+            Event::Step(s) => Some(s),
+            _ => None,
+        })
+    }
+}
+
+#[derive(Clone, Copy, Debug, Eq, PartialEq)]
+enum Status {
+    NotStarted,
+    Ready,
+    Waiting(u64),
+    Exited,
+}
+
+struct State {
+    cfg: Config,
+    n: usize,
+    registered: usize,
+    status: Vec<Status>,
+    running: Option<usize>,
+    epoch: u64,
+    pending: Vec<bool>,
+    recv_epoch: Vec<u64>,
+    pos: usize,
+    nsteps: usize,
+    trace: Trace,
+    trace_path: Option<String>,
+}
+
+static ACTIVE: AtomicBool = AtomicBool::new(false);
+static STATE: Mutex<Option<State>> = Mutex::new(None);
+static CV: Condvar = Condvar::new();
+
+thread_local! {
+    static WORKER: Cell<Option<usize>> = const { Cell::new(None) };
+}
+
+fn lock() -> MutexGuard<'static, Option<State>> {
+    STATE.lock().unwrap_or_else(|e| e.into_inner())
+}
+
+/// Install a scheduler for the next parallel walk of this process.
+pub fn install(cfg: Config) {
+    let mut g = lock();
+    *g = Some(State::new(cfg, None));
+    ACTIVE.store(true, Ordering::SeqCst);
+}
+
+/// Remove the scheduler and return what it recorded.
+pub fn take_trace() -> Option<Trace> {
+    let mut g = lock();
+    ACTIVE.store(false, Ordering::SeqCst);
+    g.take().map(|s| s.trace)
+}
+
+/// The index of the calling worker, if it runs under a scheduler.
+pub fn current_worker() -> Option<usize> {
+    WORKER.with(|w| w.get())
+}
+
+/// Append a note to the event log (in scheduling order).
+pub fn note(text: String) {
+    if !ACTIVE.load(Ordering::Relaxed) {
+        return;
+    }
+    let worker = current_worker();
+    let mut g = lock();
+    if let Some(st) = g.as_mut() {
+        st.trace.events.push(Event::Note { worker, text });
+    }
+}
+
+/// Install from `RG_VERIF_SCHED` (`c0,c1,..[;retry=i,j][;horizon=N]`) if set;
+/// the trace is then written to `RG_VERIF_TRACE` at the end of the walk.
+fn install_from_env() {
+    let Ok(spec) = std::env::var("RG_VERIF_SCHED") else { return };
+    let mut cfg = Config { prefix: vec![], retry_at: vec![], horizon: 100_000 };
+    for (i, part) in spec.split(';').enumerate() {
+        let nums = |s: &str| -> Vec<usize> {
+            s.split(',').filter_map(|x| x.trim().parse().ok()).collect()
+        };
+        if i == 0 {
+            cfg.prefix = nums(part);
+        } else if let Some(r) = part.strip_prefix("retry=") {
+            cfg.retry_at = nums(r);
+        } else if let Some(h) = part.strip_prefix("horizon=") {
+            cfg.horizon = h.trim().parse().unwrap_or(100_000);
+        }
+    }
+    let path = std::env::var("RG_VERIF_TRACE").ok();
+    let mut g = lock();
+    *g = Some(State::new(cfg, path));
+    ACTIVE.store(true, Ordering::SeqCst);
+}
+
+impl State {
+    fn new(cfg: Config, trace_path: Option<String>) -> State {
+        State {
+            cfg,
+            n: 0,
+            registered: 0,
+            status: vec![],
+            running: None,
+            epoch: 0,
+            pending: vec![],
+            recv_epoch: vec![],
+            pos: 0,
+            nsteps: 0,
+            trace: Trace::default(),
+            trace_path,
+        }
+    }
+
+    fn is_enabled(&self, j: usize) -> bool {
+        match self.status[j] {
+            Status::Ready => true,
+            Status::Waiting(e) => self.epoch > e,
+            Status::NotStarted | Status::Exited => false,
+        }
+    }
+
+    fn abort(&mut self, why: Abort) {
+        if self.trace.abort.is_none() {
+            self.trace.abort = Some(why);
+        }
+        self.running = None;
+        self.write_trace();
+    }
+
+    /// Take one decision on behalf of `w` (None: the initial decision).
+    /// Returns false if the run was aborted.
+    fn decide(&mut self, w: Option<usize>, point: Point, retry: bool) -> bool {
+        let mut enabled = vec![];
+        let mut self_enabled = false;
+        if let Some(w) = w {
+            if self.is_enabled(w) {
+                enabled.push(w);
+                self_enabled = true;
+            }
+        }
+        for j in 0..self.n {
+            if Some(j) != w && self.is_enabled(j) {
+                enabled.push(j);
+            }
+        }
+        if enabled.is_empty() {
+            if self.status.iter().all(|s| *s == Status::Exited) {
+                self.running = None;
+                self.trace.events.push(Event::Step(Step {
+                    worker: w.unwrap_or(usize::MAX),
+                    point,
+                    enabled,
+                    choice: 0,
+                    self_enabled,
+                    retry,
+                }));
+                return true;
+            }
+            self.trace.events.push(Event::Step(Step {
+                worker: w.unwrap_or(usize::MAX),
+                point,
+                enabled,
+                choice: 0,
+                self_enabled,
+                retry,
+            }));
+            self.abort(Abort::Deadlock);
+            return false;
+        }
+        let choice = if self.pos < self.cfg.prefix.len() {
+            self.cfg.prefix[self.pos]
+        } else {
+            0
+        };
+        self.pos += 1;
+        if choice >= enabled.len() {
+            self.abort(Abort::Diverged);
+            return false;
+        }
+        let chosen = enabled[choice];
+        self.trace.events.push(Event::Step(Step {
+            worker: w.unwrap_or(usize::MAX),
+            point,
+            enabled,
+            choice,
+            self_enabled,
+            retry,
+        }));
+        self.nsteps += 1;
+        if self.nsteps > self.cfg.horizon {
+            self.abort(Abort::Horizon);
+            return false;
+        }
+        self.status[chosen] = Status::Ready;
+        self.running = Some(chosen);
+        true
+    }
+
+    fn write_trace(&self) {
+        let Some(ref path) = self.trace_path else { return };
+        let mut out = String::new();
+        out.push_str(&format!("workers {}\n", self.trace.workers));
+        for ev in self.trace.events.iter() {
+            match ev {
+                Event::Step(s) => {
+                    let en: Vec<String> =
+                        s.enabled.iter().map(|x| x.to_string()).collect();
+                    out.push_str(&format!(
+                        "step {} {} [{}] {} {} {}\n",
+                        if s.worker == usize::MAX {
+                            "-".to_string()
+                        } else {
+                            s.worker.to_string()
+                        },
+                        s.point.code(),
+                        en.join(","),
+                        s.choice,
+                        s.self_enabled as u8,
+                        s.retry as u8,
+                    ));
+                }
+                Event::Note { worker, text } => {
+                    out.push_str(&format!(
+                        "note {} {}\n",
+                        worker.map_or("-".to_string(), |w| w.to_string()),
+                        text
+                    ));
+                }
+            }
+        }
+        out.push_str(&format!(
+            "end abort={:?} done={} steals={}\n",
+            self.trace.abort, self.trace.done, self.trace.steal_attempts
+        ));
+        let _ = std::fs::write(path, out);
+    }
+}
+
+/// Called by the thread that creates the per-thread stacks.
+pub(crate) fn init(threads: usize) {
+    if !ACTIVE.load(Ordering::Relaxed) {
+        install_from_env();
+        if !ACTIVE.load(Ordering::Relaxed) {
+            return;
+        }
+    }
+    let mut g = lock();
+    if let Some(st) = g.as_mut() {
+        st.n = threads;
+        st.registered = 0;
+        st.status = vec![Status::NotStarted; threads];
+        st.pending = vec![false; threads];
+        st.recv_epoch = vec![0; threads];
+        st.running = None;
+        st.trace.workers = threads;
+    }
+}
+
+/// Called by the main thread once every worker has been joined.
+pub(crate) fn done() {
+    if !ACTIVE.load(Ordering::Relaxed) {
+        return;
+    }
+    let mut g = lock();
+    if let Some(st) = g.as_mut() {
+        st.trace.done = true;
+        st.write_trace();
+    }
+}
+
+/// Called at the top of a worker thread.
+pub(crate) fn start(index: usize) {
+    if !ACTIVE.load(Ordering::Relaxed) {
+        return;
+    }
+    let mut g = lock();
+    let Some(st) = g.as_mut() else { return };
+    if st.n == 0 || index >= st.n {
+        return;
+    }
+    WORKER.with(|w| w.set(Some(index)));
+    st.status[index] = Status::Ready;
+    st.registered += 1;
+    if st.registered == st.n {
+        st.decide(None, Point::Start, false);
+        CV.notify_all();
+    }
+    wait_for_turn(g, index);
+}
+
+fn wait_for_turn(mut g: MutexGuard<'static, Option<State>>, w: usize) {
+    loop {
+        match g.as_ref() {
+            None => return,
+            Some(st) => {
+                if st.trace.abort.is_some() {
+                    drop(g);
+                    WORKER.with(|c| c.set(None));
+                    panic!("verif: scheduled walk aborted");
+                }
+                if st.running == Some(w) {
+                    return;
+                }
+            }
+        }
+        g = CV.wait(g).unwrap_or_else(|e| e.into_inner());
+    }
+}
+
+/// A hooked point. The return value is `true` when the caller must deviate:
+/// for `Idle`, skip the real sleep; for `Steal`, behave as `Steal::Retry`.
+pub(crate) fn point(p: Point) -> bool {
+    if !ACTIVE.load(Ordering::Relaxed) {
+        return false;
+    }
+    let Some(w) = current_worker() else { return false };
+    let mut g = lock();
+    let Some(st) = g.as_mut() else { return false };
+    if st.trace.abort.is_some() {
+        drop(g);
+        WORKER.with(|c| c.set(None));
+        panic!("verif: scheduled walk aborted");
+    }
+    if st.pending[w] {
+        st.epoch += 1;
+        st.pending[w] = false;
+    }
+    let mut ret = false;
+    let mut retry = false;
+    match p {
+        Point::Pop => st.recv_epoch[w] = st.epoch,
+        Point::Push => st.pending[w] = true,
+        Point::Idle => {
+            st.status[w] = Status::Waiting(st.recv_epoch[w]);
+            ret = true;
+        }
+        Point::Exit => st.status[w] = Status::Exited,
+        Point::Steal => {
+            let k = st.trace.steal_attempts;
+            st.trace.steal_attempts += 1;
+            if st.cfg.retry_at.contains(&k) {
+                retry = true;
+                ret = true;
+            }
+        }
+        _ => {}
+    }
+    let ok = st.decide(Some(w), p, retry);
+    CV.notify_all();
+    if p == Point::Exit {
+        WORKER.with(|c| c.set(None));
+        return ret;
+    }
+    if !ok {
+        drop(g);
+        WORKER.with(|c| c.set(None));
+        panic!("verif: scheduled walk aborted");
+    }
+    wait_for_turn(g, w);
+    ret
+}
+
+/// Tells the scheduler that a steal attempt of the calling worker moved
+/// messages (so that waiting workers may observe a different outcome).
+pub(crate) fn steal_succeeded() {
+    if !ACTIVE.load(Ordering::Relaxed) {
+        return;
+    }
+    let Some(w) = current_worker() else { return };
+    let mut g = lock();
+    if let Some(st) = g.as_mut() {
+        st.pending[w] = true;
+    }
+}
